@@ -1,5 +1,6 @@
 import JunoModel.Common.Proto
 import JunoModel.C02.ModelAccept
+import JunoModel.C02.ModelStore
 /-!
 Line-protocol driver for the C02 model (`lake build c02drv`).
 
@@ -176,7 +177,7 @@ def rejectStr : Reject → String
   | .suBlockHash => "su-blockhash" | .suNewRoot => "su-newroot" | .classHash => "class-hash"
   | .txReceiptLen => "tx-receipt-len" | .receiptTxHash => "receipt-txhash" | .txHash => "tx-hash"
   | .blockHash => "block-hash" | .version => "version" | .number => "number" | .parent => "parent"
-  | .state => "state"
+  | .state => "state" | .malformed => "malformed"
 
 /-- every check of `SanityCheckNewHeight` / `verifyBlockSuccession` that fails on its own (the
 comparison with the real node is insensitive to the ORDER of independent checks, so that a
@@ -189,6 +190,7 @@ def failures (net : Net) (head : Option Head) (B : Bundle) : List Reject :=
   (if !verifyClassHashes B.classes then [.classHash] else []) ++
   (if b.txs.length ≠ b.receipts.length then [.txReceiptLen] else []) ++
   (if !(List.zip b.txs b.receipts).all (fun tr => tr.1.hash == some tr.2.txHash) then [.receiptTxHash] else []) ++
+  (if l1CalldataChecked && b.txs.any l1NoCalldata then [.malformed] else []) ++
   (match (if skip then Except.ok () else verifyTransactionsE net.chainId b.txs b.header.version) with
    | .error e => [e] | .ok () => []) ++
   (match tryFallbacks net b B.su.diff skip (fallbackAddrs net) with
@@ -219,7 +221,71 @@ def parseAll (p : P α) (ts : List String) : Option α :=
 def fmtStr : Format → String
   | .pre07 => "pre07" | .post07 => "post07" | .v0132 => "v0132" | .v0134 => "v0134"
 
-def step (s : Unit) (line : String) : Unit × String :=
+/-! ### store-level node (round 4): the driver keeps the model's own index store across requests; the
+harness compares, after EVERY operation on the real node, the key/value difference of the real
+database (non-state buckets) with the batch the model built, so the two stores stay equal by
+induction and the model never reads the real one. -/
+
+structure DState where
+  db : IDB := []
+
+def feltHex64 : Term → String
+  | .felt n => bytesToHex (beBytes 32 n)
+  | _ => "?"
+
+def u64Hex16 (n : UInt64) : String := bytesToHex (beBytes 8 n.toNat)
+
+def ikeyStr : IKey → String
+  | .chainHeight => "H"
+  | .headerByNumber n => "h:" ++ u64Hex16 n
+  | .numberByHash h => "n:" ++ feltHex64 h
+  | .txIndexByHash h => "t:" ++ feltHex64 h
+  | .blockTxs n => "b:" ++ u64Hex16 n
+  | .stateUpdate n => "s:" ++ u64Hex16 n
+  | .commitments n => "c:" ++ u64Hex16 n
+  | .l1MsgHash pre => "l:" ++ String.join (pre.map feltHex64)
+  | .casmMeta c => "m:" ++ bytesToHex (beBytes 32 c)
+
+def ivalStr : Option IVal → String
+  | none => "del"
+  | some (.num n) => "num:" ++ u64Hex16 n
+  | some (.txIdx n i) => "idx:" ++ u64Hex16 n ++ u64Hex16 i
+  | some (.txHash h) => "felt:" ++ feltHex64 h
+  | some (.casm m) => "casm:" ++ bytesToHex m.marshal
+  | some _ => "*"
+
+def batchStr (b : IBatch) : String :=
+  if b.isEmpty then "-" else String.intercalate " " (b.map (fun op => ikeyStr op.1 ++ "=" ++ ivalStr op.2))
+
+def migrateErrStr : MigrateErr → String
+  | .v2Declared => "v2-declared" | .beforeDeclared => "before-declared" | .alreadyMigrated => "already-migrated"
+  | .notMigrated => "not-migrated"
+
+def casmErrStr : CasmErr → String
+  | .classMissing => "casm-class-missing" | .notSierra => "casm-not-sierra" | .metaMissing => "casm-meta-missing"
+  | .migrate e => "casm-" ++ migrateErrStr e
+
+def rejectSStr : RejectS → String
+  | .version => "version" | .number => "number" | .parent => "parent" | .io => "io"
+  | .stateOld => "state-old" | .stateApply => "state-apply" | .stateNew => "state-new"
+  | .casm e => casmErrStr e | .panicL1 => "panic-l1-calldata"
+
+def pV2 : P (List (Nat × Nat)) := pList (do let c ← pNat; let h ← pNat; pure (c, h))
+
+/-- operations on one `ClassCasmHashMetadata` value: `m<hex>` = Migrate(at), `u` = Unmigrate -/
+def casmOps : CasmMeta → List String → Option (CasmMeta × List String)
+  | m, [] => some (m, [])
+  | m, op :: rest =>
+    let r : Option (Except MigrateErr CasmMeta) :=
+      if op == "u" then some m.unmigrate
+      else if op.startsWith "m" then (hexToNat? (String.ofList (op.toList.drop 1))).bind (fun n => if n < 2 ^ 64 then some (m.migrate (UInt64.ofNat n)) else none)
+      else none
+    match r with
+    | none => none
+    | some (.ok m') => (casmOps m' rest).map (fun p => (p.1, "ok" :: p.2))
+    | some (.error e) => (casmOps m rest).map (fun p => (p.1, migrateErrStr e :: p.2))
+
+def step (s : DState) (line : String) : DState × String :=
   match words line with
   | "tx" :: rest =>
     match parseAll (do let n ← pNet; let t ← pTx; pure (n, t)) rest with
@@ -294,6 +360,60 @@ def step (s : Unit) (line : String) : Unit × String :=
       (s, (match dispatch n num v with | some f => fmtStr f | none => "err")
           ++ " " ++ (if versionSupported v then "supported" else "unsupported"))
     | none => (s, "bad-op")
+  | "node-reset" :: [] => ({ db := [] }, "ok")
+  | "node-store" :: rest =>
+    -- Store on the model's own index store. `chk`: the variant of storeCasmHashMetadataV2 the harness
+    -- found in the code under test (does it require the definition of a declared class?). State: `curRoot` is the commitment of the real node's
+    -- state under the block's version, `applyRes` the commitment after applying the diff (~ = the
+    -- application fails); both are measured on a scratch copy of the real node, not taken from the bundle.
+    match parseAll (do let chk ← pBool; let nb ← pBool; let B ← pBundle; let cid ← pNat; let cur ← pFelt; let ap ← pOpt pFelt
+                       let v2 ← pV2; pure (chk, nb, B, cid, cur, ap, v2)) rest with
+    | some (chk, nb, B, cid, cur, ap, v2) =>
+      let sem : StateSem Term := ⟨fun st _ => st, fun _ _ _ _ => ap⟩
+      let v2of : Nat → Nat := fun c => match v2.find? (fun p => p.1 == c) with | some p => p.2 | none => 0
+      let n : NodeS Term := ⟨s.db, ⟨none, cur, []⟩⟩
+      let errs := String.intercalate "," ((casmErrorsWith chk s.db B.block.header B.su.diff B.classes).map casmErrStr)
+      (match storeCallbackWith chk nb sem n B cid v2of with
+       | .ok (ws, _) => ({ db := s.db.applyBatch ws }, "ok | " ++ errs ++ " | " ++ batchStr ws)
+       | .error e => (s, rejectSStr e ++ " | " ++ errs ++ " | -"))
+    | none => (s, "bad-op")
+  | "node-revert" :: [] =>
+    (match getChainHeight s.db with
+     | .error _ => (s, "io | -")
+     | .ok height =>
+       match s.db.get (.stateUpdate height) with
+       | some (.su u) =>
+         (match deleteBlockContent s.db u height with
+          | .error e => (s, rejectSStr e ++ " | -")
+          | .ok ws => ({ db := s.db.applyBatch ws }, "ok | " ++ batchStr ws))
+       | _ => (s, "io | -"))
+  | "node-head" :: [] =>
+    (s, match headNumberAndHash s.db with
+        | .ok hd => u64Hex16 hd.number ++ " " ++ feltHex64 hd.hash
+        | .error .notFound => "empty"
+        | .error .other => "io")
+  | "casm" :: kind :: rest =>
+    -- casm new1 <at> <v1> <v2> <ops…> ; <heights…>   |   casm new2 <at> <v2> <ops…> ; <heights…>
+    let (args, hs) := (rest.takeWhile (· != ";"), (rest.dropWhile (· != ";")).drop 1)
+    let init : Option (CasmMeta × List String) :=
+      match kind, args with
+      | "new1", a :: v1 :: v2 :: ops =>
+        (do let a ← hexToNat? a; let v1 ← hexToNat? v1; let v2 ← hexToNat? v2
+            if a < 2 ^ 64 then pure (CasmMeta.newV1 (UInt64.ofNat a) v1 v2, ops) else none)
+      | "new2", a :: v2 :: ops =>
+        (do let a ← hexToNat? a; let v2 ← hexToNat? v2
+            if a < 2 ^ 64 then pure (CasmMeta.newV2 (UInt64.ofNat a) v2, ops) else none)
+      | _, _ => none
+    (match init with
+     | none => (s, "bad-op")
+     | some (m0, ops) =>
+       match casmOps m0 ops, hs.mapM (fun h => (hexToNat? h).bind (fun n => if n < 2 ^ 64 then some (UInt64.ofNat n) else none)) with
+       | some (m, rs), some heights =>
+         (s, String.intercalate "," rs ++ " | " ++ bytesToHex m.marshal ++ " | " ++ natToHex m.casmHash ++ " " ++
+             (if m.isMigrated then "1" else "0") ++ (if m.isDeclaredWithV2 then "1" else "0") ++ " | " ++
+             String.intercalate "," (heights.map (fun h =>
+               (match m.casmHashAt h with | some x => natToHex x | none => "nf") ++ (if m.isMigratedAt h then "+" else "-"))))
+       | _, _ => (s, "bad-op"))
   | _ => (s, "bad-op")
 
-def main : IO Unit := loop step ()
+def main : IO Unit := loop step {}
